@@ -21,9 +21,12 @@ import (
 	"syscall"
 	"testing/iotest"
 
+	fhttp "github.com/synnaxlabs/freighter/http"
 	"github.com/synnaxlabs/synnax/pkg/distribution/channel"
 	"github.com/synnaxlabs/synnax/pkg/distribution/framer/codec"
 	"github.com/synnaxlabs/synnax/pkg/distribution/framer/frame"
+	"github.com/synnaxlabs/synnax/pkg/distribution/framer/writer"
+	httpframer "github.com/synnaxlabs/synnax/pkg/transport/http/framer"
 	"github.com/synnaxlabs/x/errors"
 	"github.com/synnaxlabs/x/telem"
 	"github.com/synnaxlabs/x/validate"
@@ -154,7 +157,13 @@ func classify(err error) int {
 type slot struct {
 	c       *codec.Codec
 	pending int
+	// hc is set for codecs obtained the way a websocket connection obtains one: from the
+	// factory that http/framer.WithCodec registers on the stream server. Encode/Decode of
+	// such a slot go through the http codec (writer-request messages, binary frame path).
+	hc *httpframer.Codec
 }
+
+const frameContentType = "application/vnd.synnax.frame"
 
 // plainReader hides every method of the wrapped reader except Read, like the message
 // reader of a websocket connection.
@@ -208,6 +217,7 @@ func runCase(c tcase) (res result) {
 	res.ID = c.ID
 	ctx := context.Background()
 	slots := map[int]*slot{}
+	var serverOpt fhttp.StreamServerOption
 	var last []byte
 	for _, o := range c.Ops {
 		var r out
@@ -237,6 +247,18 @@ func runCase(c tcase) (res result) {
 					keys[i] = channel.Key(k)
 				}
 				slots[o.Who] = &slot{c: codec.NewStatic(keys, dts, opts...), pending: 1}
+			case "conn":
+				// one server process = one option object; every "conn" op is one more
+				// connection negotiating the frame content type on it
+				if serverOpt == nil {
+					serverOpt = httpframer.WithCodec(nil)
+				}
+				ec, ok := fhttp.VerifC08NewStreamCodec(serverOpt, frameContentType)
+				hc, ok2 := ec.(*httpframer.Codec)
+				if !ok || !ok2 || hc.Codec == nil {
+					panic("stream server did not resolve a frame codec")
+				}
+				slots[o.Who] = &slot{c: hc.Codec, hc: hc}
 			case "dynamic":
 				var opts []codec.Option
 				if !o.Compress {
@@ -310,7 +332,25 @@ func runCase(c tcase) (res result) {
 					}
 				}
 				s.pending = 0
-				b, err := s.c.Encode(ctx, frame.NewMulti(keys, series))
+				var (
+					b   []byte
+					err error
+				)
+				if s.hc != nil {
+					var m fhttp.WSMessage[httpframer.WriterRequest]
+					m.Type = fhttp.WSMessageTypeData
+					m.Payload.Command = writer.CommandWrite
+					m.Payload.Frame = frame.NewMulti(keys, series)
+					b, err = s.hc.Encode(ctx, m)
+					if err == nil {
+						if len(b) == 0 || b[0] != 255 {
+							panic("http codec did not take the binary frame path")
+						}
+						b = b[1:]
+					}
+				} else {
+					b, err = s.c.Encode(ctx, frame.NewMulti(keys, series))
+				}
 				r.Cls = classify(err)
 				if err != nil {
 					r.Msg = err.Error()
@@ -362,9 +402,23 @@ func runCase(c tcase) (res result) {
 				}
 				runtime.ReadMemStats(&ms1)
 				metering = true
-				if rd == nil {
+				switch {
+				case s.hc != nil:
+					// one websocket message: the binary-frame marker, then the frame
+					msg := append([]byte{255}, in...)
+					var m fhttp.WSMessage[httpframer.WriterRequest]
+					switch o.Stream {
+					case 0:
+						err = s.hc.Decode(ctx, msg, &m)
+					case 1:
+						err = s.hc.DecodeStream(ctx, plainReader{bytes.NewReader(msg)}, &m)
+					default:
+						err = s.hc.DecodeStream(ctx, iotest.OneByteReader(bytes.NewReader(msg)), &m)
+					}
+					fr = m.Payload.Frame
+				case rd == nil:
 					fr, err = s.c.Decode(in)
-				} else {
+				default:
 					fr, err = s.c.DecodeStream(rd)
 				}
 				runtime.ReadMemStats(&ms2)
